@@ -361,6 +361,82 @@ def zero_tests(fn):
     return out
 
 
+def evaluate_budget(crate, comp):
+    """Second opinion by abstract evaluation, for shapes the counter dataflow does not follow (the counter behind a
+    newtype with `descend() -> bool` / `ascend()`, closure-taking wrappers, ...).  Every function of the recursive
+    component is evaluated over all of its abstract paths with the counter field holding a concrete budget K = 5 and
+    again with K = 1 (exhausted at the next level); calls into the component are not followed but recorded with the
+    counter's value at that moment.  Returns ({(caller, callee): set of deltas at K=5}, {(caller, callee)} reached at
+    K=1, {fn: set of counter deltas at return}, set of functions that could not be evaluated)."""
+    from . import lex, sim
+    from .sim import Opq
+    cs = set(comp)
+    light = lex.light_fns(crate)
+    hi = lex.helper_inline(crate)
+    fns = [crate.fn(p) for p in comp if crate.fn(p) is not None]
+    tys = {}
+    a = crate.adts.get("parse::Parser")
+    depth_ty = None
+    if a:
+        for fl in a["variants"][0]["fields"]:
+            if fl["name"] == FIELD:
+                depth_ty = fl["ty"]
+
+    scalar = depth_ty is None or depth_ty in lex.SCALARS
+
+    def inl(x, b):
+        if b.path in cs and b.kind != "closure":
+            return False
+        if b.kind == "closure":
+            return b.owner in cs or b.owner in light
+        return hi(x, b) or (depth_ty is not None and (b.self_ty or "") == depth_ty and b.crate == crate.name)
+
+    def counter(path, k):
+        for key, v in path.heap.items():
+            if isinstance(key, Opq) and FIELD in key.path:
+                return v
+        return k
+
+    deltas, at_one, rets, failed = {}, set(), {}, set()
+    for f in fns:
+        if f.kind == "closure":
+            continue
+        for k in (5, 1):
+            seen = []
+
+            def opaque(o, k=k):
+                # the counter itself: the field, or the integer inside a newtype it is wrapped in
+                if o.path and FIELD in o.path and (o.path[-1] == FIELD) == scalar:
+                    return k
+                return None
+
+            def hook(S, fn, bb, t, args, path, k=k, seen=seen):
+                c = t["callee"]
+                tgt = c.get("resolved") or c.get("path") or ""
+                if tgt in cs and c.get("resolved_crate", c.get("crate")) == crate.name:
+                    seen.append((fn.path, tgt, counter(path, k)))
+                    return ("value", sim.UNK)
+                return None
+
+            S = sim.Sim([crate], hooks={"call": hook, "opaque": opaque}, inline=inl, max_paths=20000, max_depth=6, max_visits=2)
+            try:
+                paths = S.run(f)
+            except sim.Limit:
+                failed.add(f.path)
+                continue
+            for (src, tgt, v) in seen:
+                if k == 5:
+                    deltas.setdefault((src, tgt), set()).add(v - 5 if isinstance(v, int) else "?")
+                else:
+                    at_one.add((src, tgt))
+            if k == 5:
+                for p in paths:
+                    if p.end == "return":
+                        v = counter(p, 5)
+                        rets.setdefault(f.path, set()).add(v - 5 if isinstance(v, int) else "?")
+    return deltas, at_one, rets, failed
+
+
 def check_depth(ctx, crate, r_cycle, r_bal):
     edges = local_call_graph(crate)
     owners = sorted({f.path for f in crate.fns})
@@ -415,6 +491,18 @@ def check_depth(ctx, crate, r_cycle, r_bal):
     for hp, outs in sorted(summaries.items()):
         r_cycle.note("helper %s changes the counter: outcomes (result variant, delta, tested) = %s" % (hp, outs))
 
+    budget_cache = {}
+
+    def budget(comp):
+        k = tuple(comp)
+        if k not in budget_cache:
+            try:
+                budget_cache[k] = evaluate_budget(crate, comp)
+            except Exception as e:      # the second opinion never decides alone against the tree
+                r_cycle.note("abstract evaluation of the depth budget failed: %r" % (e,))
+                budget_cache[k] = ({}, set(), {}, set(comp))
+        return budget_cache[k]
+
     for comp in parser_comps:
         cs = set(comp)
         uncharged = {}   # owner -> set(callee owner) for uncharged intra-SCC edges
@@ -443,6 +531,13 @@ def check_depth(ctx, crate, r_cycle, r_bal):
                     charged_n += 1
                     r_cycle.ok("%s -> %s is charged (depth delta -1, dominated by the depth != 0 edge)" % (o, callee_owner),
                                fn, t.get("line"))
+                elif t.get("k") != "closure" and budget(comp)[0].get((o, callee_owner)) == {-1} \
+                        and (o, callee_owner) not in budget(comp)[1] and o.split("::{closure", 1)[0] not in budget(comp)[3]:
+                    # by evaluation: with a budget of 5 every abstract path reaches this call with 4 left, and with a
+                    # budget of 1 no path reaches it
+                    charged_n += 1
+                    r_cycle.ok("%s -> %s is charged (evaluated: one level taken on every path, unreachable on an exhausted budget)"
+                               % (o, callee_owner), fn, t.get("line"))
                 else:
                     uncharged.setdefault(o, set()).add(callee_owner)
                     uncharged.setdefault((o, callee_owner), []).append((fn, bi, t, delta, guarded))
@@ -557,6 +652,26 @@ def check_depth(ctx, crate, r_cycle, r_bal):
                             fn.loc(fn.blocks[p]["term"].get("line")))
         else:
             r_bal.ok("%s: every return is reached with depth delta 0; delta stays within [-1,0]" % fn.path, fn)
+    if touched == 0:
+        # the counter is not stepped by `+= 1` / `-= 1` on the field in the parser's own functions (it lives behind a
+        # type of its own): balance by evaluation - every function of the recursive component returns, on every abstract
+        # path, with the budget it was entered with
+        for comp in parser_comps:
+            _d, _one, rets, failed = budget(comp)
+            for fp in comp:
+                f = by_path.get(fp)
+                if f is None or f.kind == "closure":
+                    continue
+                got = rets.get(fp)
+                if fp in failed or not got:
+                    r_bal.violation(fp, "inexact", "the depth budget of %s could not be evaluated" % fp, f.loc())
+                elif got == {0}:
+                    touched += 1
+                    r_bal.ok("%s: every return is reached with the depth budget it was entered with (evaluated)" % fp, f)
+                else:
+                    r_bal.violation(fp, "unbalanced-return",
+                                    "%s can return with the depth budget changed by %s: the limit is not restored on that "
+                                    "exit, so repeated calls on one parser drift towards 0" % (fp, sorted(map(str, got))), f.loc())
     r_bal.floor("functions-touching-counter", touched)
 
     # ---------------- the limit constant at construction
@@ -569,6 +684,8 @@ def check_depth(ctx, crate, r_cycle, r_bal):
                     names = [f["name"] for f in crate.adts["parse::Parser"]["variants"][0]["fields"]]
                     i = names.index(FIELD)
                     v = common.const_int(s["rv"]["fields"][i])
+                    if v is None and s["rv"]["fields"][i].get("c") == "const" and "newtype_int" in s["rv"]["fields"][i]:
+                        v = int(s["rv"]["fields"][i]["newtype_int"])       # the counter wrapped in a newtype
                     if v is None or v < 101 or v > 255:
                         r_bal.violation(fn.path, "limit-constant",
                                         "%s constructs a Parser with remaining_depth %r; the documented behaviour "
